@@ -308,6 +308,8 @@ pub fn build_rt(c: &RtCfg) -> io::Result<Runtime> {
 
 pub enum Stall {
     KeepWaiting,
+    /// The program is over although its main future is not (nothing more can happen); no verdict.
+    Finish,
     Violation(Fail),
     Inconclusive(String),
 }
@@ -363,6 +365,7 @@ pub fn drive<F: Future>(
             if idle >= lim.idle_iters {
                 match stall() {
                     Stall::KeepWaiting => idle = 0,
+                    Stall::Finish => return None,
                     Stall::Violation(f) => {
                         ctx.fail(f.sig, f.what);
                         return None;
